@@ -259,6 +259,12 @@ fn path_is_stylua_ignored(path: &Path, search_parent_directories: bool) -> Resul
     )
     .context("failed to parse ignore file")?;
 
+    // The ignore file found may be the one of the current directory. Its patterns are relative to its own directory and
+    // cannot match a path outside of it (`matched_path_or_any_parents` panics when given such a path)
+    if path.has_root() && !path.starts_with(ignore.path()) {
+        return Ok(false);
+    }
+
     Ok(matches!(
         ignore.matched_path_or_any_parents(path, false),
         ignore::Match::Ignore(_)
